@@ -775,6 +775,7 @@ class ModelMixin(object):
         lc = self.loop_contracts.get((fi.key, "comp", ordn)) if fi is not None else None
         if lc is not None:
             # a comprehension whose element expression may raise / has effects is the loop it abbreviates
+            lc._alias = self.loop_alias(fi, "comp", ordn, node)
             st.env["$out"] = st.alloc(PyList(items=[]))
 
             def body(s, elem, j):
